@@ -20,7 +20,7 @@ CONSTANTS MaxLines,
 M(toks, name, ty, vtok, w, cnt, tags) ==
   [toks |-> toks, k |-> "m", name |-> name, ty |-> ty, vtok |-> vtok, w |-> w, cnt |-> cnt, tags |-> tags]
 B(toks) == [toks |-> toks, k |-> "bad", name |-> <<>>, ty |-> "", vtok |-> "", w |-> 0, cnt |-> 0, tags |-> <<>>]
-E(toks) == [toks |-> toks, k |-> "e", name |-> <<>>, ty |-> "", vtok |-> "", w |-> 0, cnt |-> 0, tags |-> <<>>]
+E(toks, title, text, tags) == [toks |-> toks, k |-> "e", name |-> title, ty |-> "", vtok |-> text, w |-> 0, cnt |-> 0, tags |-> tags]
 
 HostTag1 == <<"host", ":", "h", "1">>
 HostTag2 == <<"host", ":", "h", "2">>
@@ -44,7 +44,9 @@ Pool == <<
   B(<<"a", "|", "c">>), B(<<":", "1", "|", "c">>), B(<<"a", ":", "1">>), B(<<"a", ":", "1", "|", "a">>),
   B(<<"a", ":", "x1", "|", "c">>), B(<<"a", ":", "1", "|", "c", "|", "@", "x1">>),
   B(<<>>),
-  E(<<"_", "e", "{", "1", ",", "1", "}", ":", "a", "|", "b">>)
+  E(<<"_", "e", "{", "1", ",", "1", "}", ":", "a", "|", "b">>, <<"a">>, "b", <<>>),
+  E(<<"_", "e", "{", "1", ",", "1", "}", ":", "b", "|", "a", "|", "#", "a", ":", "b", ",", "host", ":", "h", "1">>, <<"b">>, "a", <<TagAB, HostTag1>>),
+  E(<<"_", "e", "{", "1", ",", "1", "}", ":", "a", "|", "a", "|", "#", "b">>, <<"a">>, "a", << <<"b">> >>)
 >>
 
 PoolAgreesWithGrammar ==
@@ -52,7 +54,7 @@ PoolAgreesWithGrammar ==
     LET l == Pool[i] p == PLine(l.toks) IN
       CASE l.toks = <<>> -> TRUE                       \* the empty line: rejected by the lexer (Lexer!Final(Q0))
         [] l.k = "bad" -> p.k = "reject" \/ (p.k = "metric" /\ (p.value = <<"x1">> \/ p.rates = <<<<"x1">>>>))
-        [] l.k = "e"   -> p.k = "event"
+        [] l.k = "e"   -> p.k = "event" /\ p.title = l.name /\ p.text = <<l.vtok>> /\ p.tags = l.tags
         [] l.k = "m"   -> p.k = "metric" /\ p.name = l.name /\ p.type = l.ty /\ p.value = <<l.vtok>> /\ p.tags = l.tags /\ p.exact
 
 \* ---------------------------------------------------------------- source rule
@@ -69,6 +71,9 @@ Idx(lines, P(_)) == {i \in 1..Len(lines) : P(Pool[lines[i]])}
 PMetricsOf(lines, ih) == LET ms == SelectSeq(lines, LAMBDA x : Pool[x].k = "m")
                          IN [i \in 1..Len(ms) |-> [sid |-> Sid(Pool[ms[i]], ih), vtok |-> Pool[ms[i]].vtok,
                                                    w |-> Pool[ms[i]].w, cnt |-> Pool[ms[i]].cnt]]
+\* events keep every field the line gave them (tags in line order; the source is always the sender address)
+PEventsOf(lines) == LET es == SelectSeq(lines, LAMBDA x : Pool[x].k = "e")
+                    IN [i \in 1..Len(es) |-> [title |-> Pool[es[i]].name, text |-> Pool[es[i]].vtok, tags |-> Pool[es[i]].tags]]
 RECURSIVE SumW(_, _), SumC(_, _)
 SumW(ms, sid) == IF ms = <<>> THEN 0 ELSE (IF Head(ms).sid = sid THEN Head(ms).w ELSE 0) + SumW(Tail(ms), sid)
 SumC(ms, sid) == IF ms = <<>> THEN 0 ELSE (IF Head(ms).sid = sid THEN Head(ms).cnt ELSE 0) + SumC(Tail(ms), sid)
@@ -83,7 +88,7 @@ PMap(ms) ==
 PParse(lines, ih) ==
   [metrics |-> PMetricsOf(lines, ih),
    map     |-> PMap(PMetricsOf(lines, ih)),
-   events  |-> Cardinality(Idx(lines, LAMBDA l : l.k = "e")),
+   events  |-> PEventsOf(lines),
    bad     |-> Cardinality(Idx(lines, LAMBDA l : l.k = "bad"))]
 
 \* ---------------------------------------------------------------- I-level: the byte loop and the Receive fold
@@ -114,7 +119,7 @@ IParse(lines, trailing, ih) ==
   LET seen == Loop(Bytes(lines, trailing), <<>>)
       ms   == PMetricsOf(seen, ih)
   IN [metrics |-> ms, map |-> Fold(ms, <<>>, 1),
-      events |-> Cardinality(Idx(seen, LAMBDA l : l.k = "e")),
+      events |-> PEventsOf(seen),
       bad |-> Cardinality(Idx(seen, LAMBDA l : l.k = "bad"))]
 
 \* ---------------------------------------------------------------- enumeration
